@@ -27,6 +27,11 @@
 (* the harness builds the same tree with the overloaded operators of       *)
 (* ir.SymbolicDim and compares.                                            *)
 (*                                                                         *)
+(* Signs (SymDimMC_signs.cfg): the same enumeration over the rounding       *)
+(* operators (floor ceil trunc neg, / // % -) with NEGATED symbols and      *)
+(* constants among the leaves, so that every rounding direction meets a    *)
+(* negative non-integer operand already at "depth 2".                      *)
+(*                                                                         *)
 (* Shapes (SymDimMC_shapes.cfg): the precedence / associativity lemmas on  *)
 (* explicit token strings (-N**2, N-M-K, N//M//K, N%M*K, 2**N**2, ...),    *)
 (* each with the tree it must mean; emitted with values for replay.        *)
@@ -46,9 +51,11 @@ EXTENDS SymDim, Json, IOUtils
 CONSTANTS
   SymSeq,      \* the symbols, as a sequence (fixes the order of bindings and the hash)
   LeafInts,    \* integer constants used as leaves
+  NegSyms, NegInts,   \* symbols / constants that additionally occur negated as "leaves" (signs configuration)
   Vals,        \* values a symbol can be bound to
   UnSet, BinSet,   \* operators enumerated
   PerClass, SampleRem,    \* stratified sample of the trees of depth 2, see Emitted
+  ClosedBoost,
   NRand, RandDepth,
   LightLemmas  \* TRUE: check PartialOK / all print modes only on emitted trees (quick tier)
 
@@ -59,10 +66,12 @@ VARIABLES t,   \* the tree
 
 vars == <<t, ph, x, v>>
 
+MCSymSeq1 == <<"N">>
 MCSymSeq2 == <<"N", "M">>
 MCSymSeq3 == <<"N", "M", "K">>
 
 Leaves == {Sym(s) : s \in Syms} \cup {Num(k) : k \in LeafInts}
+          \cup {Un("neg", Sym(s)) : s \in NegSyms} \cup {Un("neg", Num(k)) : k \in NegInts}
 UnOf(S)     == {Un(o, a) : o \in UnSet, a \in S}
 BinOf(S, T) == {Bin(o, a, b) : o \in BinSet, a \in S, b \in T}
 Trees1 == Leaves \cup UnOf(Leaves) \cup BinOf(Leaves, Leaves)
@@ -111,11 +120,14 @@ ClassSize(tt) ==
     [] tt.op \in UnAll -> Sz(tt.a)
     [] OTHER -> Sz(tt.a) * Sz(tt.b)
 Stride(tt) == LET m == ClassSize(tt) \div PerClass IN IF m < 1 THEN 1 ELSE m
+\* closed trees (no symbol: the library folds them when they are built) are sampled ClosedBoost times denser
+ClosedStride(tt) == LET m == Stride(tt) \div ClosedBoost IN IF m < 1 THEN 1 ELSE m
 Emitted ==
   \/ ph = "rand"
   \/ Depth(t) <= 1
   \/ t.op \in UnAll
   \/ Hash(t) % Stride(t) = SampleRem % Stride(t)
+  \/ (FreeSyms(t) = {} /\ Hash(t) % ClosedStride(t) = SampleRem % ClosedStride(t))
 
 (***************************************************************************)
 (* Lemmas (invariants: evaluated on every enumerated tree)                 *)
